@@ -155,6 +155,11 @@ class ExternalVariableCollector(NodeVisitor):
         self.funcnames.add(node.name)
         self.generic_visit(node)
 
+    def visit_ClassDef(self, node):
+        # Like a nested function, a class statement binds its name locally
+        self.funcnames.add(node.name)
+        self.generic_visit(node)
+
     def visit_Name(self, node):
         if isinstance(node.ctx, ast.Load):
             self.used.add(node.id)
